@@ -107,6 +107,8 @@ func vsConcWorld(s *verifsim.Sim, dir string) {
 
 	kinds := []string{"PutODS", "PutODSQ4", "Get", "CachedGet", "Has", "RemoveODSQ4", "RemoveQ4", "NestedGet"}
 	var ops []*vsConcOp
+	// held: accessors the reader tasks of the run hold at this moment (obtained, not yet closed)
+	held := 0
 	apply := func(st *Store, cs *CachedStore, o *vsConcOp, judge bool, name string) error {
 		sq := sqOf[o.h]
 		switch o.kind {
@@ -131,6 +133,10 @@ func vsConcWorld(s *verifsim.Sim, dir string) {
 				}
 				return err
 			}
+			if judge {
+				held++
+				defer func() { held-- }()
+			}
 			other := heights[(len(heights)+int(o.h)%len(heights)+1)%len(heights)]
 			if acc2, err2 := cs.GetByHeight(ctx, other); err2 == nil {
 				_ = acc2.Close()
@@ -154,6 +160,8 @@ func vsConcWorld(s *verifsim.Sim, dir string) {
 				return err
 			}
 			if judge {
+				held++
+				defer func() { held-- }()
 				vsHeldReads(s, ctx, acc, sq, o, rng, name)
 			}
 			return acc.Close()
@@ -197,6 +205,14 @@ func vsConcWorld(s *verifsim.Sim, dir string) {
 		s.Pick("step", alts)
 	}
 	if s.Violated() {
+		return
+	}
+	// (2a) nothing can proceed, operations are unfinished and no reader holds an accessor: whatever the
+	// operations wait for, it is not a reader - only the cache's close timeout (a safety net against
+	// readers that forget to close) can end the wait, i.e. the store waits for itself
+	if un := s.Unfinished(); len(un) > 0 && held == 0 {
+		rep, _ := s.BlockedReport()
+		s.Violate("c08-waits-for-itself", "close-timeout", "tasks %v cannot proceed although no reader holds an accessor: the operations wait for a reference the store itself holds and only the cache's close timeout ends the wait (ops: %s); blocked: %s", un, opNames, rep)
 		return
 	}
 	// (2) every operation returns; goroutines waiting for readers (bounded by the close timeout) get their time
@@ -294,7 +310,30 @@ func vsConcWorld(s *verifsim.Sim, dir string) {
 	case tried >= 120:
 		s.Probe("serialisability-inconclusive")
 	default:
-		s.Violate("c08-final-state-not-serialisable", "observe", "after quiescence the store holds {%s}, which none of the %d sequential orders of the completed operations produces (completion order gives {%s}); ops: %s", got, tried, firstRef, opNames)
+		sig := "observe"
+		// a narrower signature for one way of getting here: a height whose link is gone from the disk is
+		// still reported and served (out of a cache), and a cached read of that height overlapped one of
+		// its removals
+		for _, h := range heights {
+			has := false
+			s.Do("has", func() { has, _ = st.HasByHeight(ctx, h) })
+			if _, err := os.Lstat(st.heightToPath(h, odsFileExt)); !has || err == nil {
+				continue
+			}
+			for _, rd := range ops {
+				reads := (rd.kind == "CachedGet" && rd.h == h) ||
+					(rd.kind == "NestedGet" && (rd.h == h || heights[(len(heights)+int(rd.h)%len(heights)+1)%len(heights)] == h))
+				if !reads {
+					continue
+				}
+				for _, rm := range ops {
+					if rm.kind == "RemoveODSQ4" && rm.h == h && rm.start <= rd.end && rd.start <= rm.end {
+						sig = "cached read raced the removal of the height: it stays served from the cache"
+					}
+				}
+			}
+		}
+		s.Violate("c08-final-state-not-serialisable", sig, "after quiescence the store holds {%s}, which none of the %d sequential orders of the completed operations produces (completion order gives {%s}); ops: %s", got, tried, firstRef, opNames)
 		return
 	}
 
